@@ -5,7 +5,8 @@ import sys, os, re, json, hashlib
 sys.path.insert(0, os.path.dirname(__file__))
 from coqgen import *
 
-URIS = ['/akn/za/act/2009/1', '/akn/za-cpt/act/by-law/2010/public-places', '/akn/na/judgment/nasc/2020/5']
+URIS = ['/akn/za/act/2009/1', '/akn/za-cpt/act/by-law/2010/public-places', '/akn/na/judgment/nasc/2020/5',
+        '/akn/za/act/2009/10/afr@2012-06-01', '/akn/ke/act/ln/2011/5/swa@']
 PLACE = 'COMPONENT'
 
 def chr_ok(c):
